@@ -236,13 +236,23 @@ def r11a(ctx, P):
 
 
 def _agg_elem_locals(f, sl, operand):
+    """locals that are elements of the byte array handed to `update`, followed back through plain copies (`let tag = match ..;
+    update(&[tag])`: the definitions of interest are those of `tag`, not of the temporary inside the array)"""
     out = set()
     for x in sl.sources(operand):
         if x[0] == "agg" and x[3].get("ak") == "array":
             for o in x[3]["ops"]:
                 l = op_local(o)
-                if l is not None:
+                seen = set()
+                while l is not None and l not in seen:
+                    seen.add(l)
                     out.add(l)
+                    dd = f.defs().get(l, [])
+                    if len(dd) == 1 and dd[0]["k"] == "assign" and dd[0]["rv"]["k"] in ("use", "cast") and op_local(dd[0]["rv"]["a"]) is not None and \
+                            not op_place(dd[0]["rv"]["a"])["p"]:
+                        l = op_local(dd[0]["rv"]["a"])
+                    else:
+                        break
     return out
 
 
